@@ -19,7 +19,7 @@ PROPERTY = {
                'path text': 'components: ints from {-12,-1,0,1,7,12}, 7 names over {a, Z, _, 0} of length <= 2, <= 3 components'},
     'outside': ['operations not listed in the property (sort, reverse, +=, *=, copy, slices, popitem)', 'names outside [A-Za-z0-9_]+ and float/bool keys in textual paths'],
     'per_split_timeout': {'quick': 600, 'thorough': 1800},
-    'wall_budget': {'quick': 900, 'thorough': 3400},
+    'wall_budget': {'quick': 1500, 'thorough': 7000},
 }
 
 LIST_OPS = ['setitem', 'delitem', 'insert', 'append', 'extend', 'remove', 'pop', 'pop_default', 'clear', 'set_child', 'remove_child', 'getitem', 'rename_child']
